@@ -30,9 +30,6 @@ def bump (l : List (String × Nat)) (k : String) : List (String × Nat) × Nat :
   | some (_, c) => (l.map (fun p => if p.1 == k then (p.1, p.2 + 1) else p), c + 1)
   | none => ((k, 1) :: l, 1)
 
-def words (s : String) : List String :=
-  (s.splitOn " ").filter (· ≠ "")
-
 def handle (req ans : String) : Verdict :=
   let r := words req
   match r with
